@@ -4,6 +4,8 @@ import (
 	"bytes"
 	"crypto/sha256"
 	"fmt"
+	"github.com/cockroachdb/pebble/v2/vfs"
+	rand "math/rand/v2"
 	"strings"
 	"time"
 
@@ -50,9 +52,16 @@ func RunChain(c *simkit.Ctx) {
 		c.Step()
 		w.stepHeight(-1)
 		// faults between heights
+		if c.Prop == "C09" && t.Chance(1, 2) {
+			w.crashNode(w.nodes[t.Intn(len(w.nodes))])
+		}
 		switch t.Pick(12, 2, 2, 1, 1) {
 		case 1:
-			w.restartNode(w.nodes[t.Intn(len(w.nodes))])
+			if t.Chance(1, 3) {
+				w.crashNode(w.nodes[t.Intn(len(w.nodes))])
+			} else {
+				w.restartNode(w.nodes[t.Intn(len(w.nodes))])
+			}
 		case 2:
 			store.VerifPurgeBlockCache()
 			c.Fault("process_cache_purge")
@@ -417,6 +426,12 @@ func (w *world) afterCommitOracles(what string) {
 		c.Fingerprint(s.height, len(s.accounts), len(s.validators), len(s.unstaking), len(s.paused), s.supply.GetTotal()%1000)
 		if ref == nil {
 			ref = s
+			if w.digestAt == nil {
+				w.digestAt = map[uint64][]byte{}
+			}
+			if _, ok := w.digestAt[s.height]; !ok {
+				w.digestAt[s.height] = s.digest
+			}
 			w.checkSupply(n, s, what)
 			w.checkStaking(n, s, what)
 			w.checkCommittee(n, s, what)
@@ -558,4 +573,40 @@ func (w *world) bigBatch(ups []*node) {
 	w.txSeq++
 	c.Fault("big_batch_of_transfers")
 	c.Logf("tx#%d BATCH of %d transfers from %s (accepted by %d mempools)", w.txSeq, count, from.name, nOK)
+}
+
+// crashNode: the node process dies without closing anything; only what the simulated disk holds
+// survives (all of the unsynced data, or none of it). The node restarts on that image: it must come
+// up at a height it really committed, with exactly the state the chain had at that height, and
+// catch up from its peers afterwards.
+func (w *world) crashNode(n *node) {
+	c := w.c
+	if !n.up || len(w.upNodes()) < 2 {
+		return
+	}
+	hBefore := n.height()
+	pct := []int{0, 100}[c.T.Intn(2)]
+	img := n.mem.CrashClone(vfs.CrashCloneCfg{UnsyncedDataPercent: pct, RNG: rand.New(rand.NewPCG(1, 2))})
+	n.close()
+	n.mem = img
+	store.VerifPurgeBlockCache()
+	w.cur = nil
+	w.focus(n)
+	n.open()
+	c.Fault(fmt.Sprintf("node_crash_unsynced_%d", pct))
+	h := n.height()
+	c.Logf("%s CRASHED at height %d (unsynced data kept: %d%%), restarted at height %d", n.name, hBefore, pct, h)
+	c.Check()
+	if h > hBefore {
+		c.ReportFor("C09", "reopen", "height-from-the-future", fmt.Sprintf("%s crashed at height %d and restarted at height %d", n.name, hBefore, h))
+	}
+	if h < hBefore {
+		c.Probe("node_crash_lost_acknowledged_heights")
+	}
+	if want, ok := w.digestAt[h]; ok {
+		got := w.scan(n)
+		if !bytes.Equal(got.digest, want) {
+			c.ReportFor("C09", "reopen", "state-after-crash-differs-from-the-chain", fmt.Sprintf("%s restarted at height %d after a crash with a state (%d keys) that differs from the chain's state at that height", n.name, h, got.nKeys))
+		}
+	}
 }
